@@ -66,6 +66,8 @@ type genGo struct {
 	limit     int
 	drained   bool
 	swept     bool
+	timed     bool // the go carries a usable clock of the mover or a move time of at most 10^7 ms
+	waiting   bool // the GUI sends no stop: it waits for the engine's own deadline
 	bigQuanta bool
 }
 
@@ -425,6 +427,16 @@ func (g *uciGen) issueGo() {
 		}
 		g.sc.Stubs = append(g.sc.Stubs, sg)
 	}
+	if clk := parseGoClock(line); true {
+		own := clk.btime
+		if g.game.Cur().White {
+			own = clk.wtime
+		}
+		if clk.movetime > 0 {
+			own = clk.movetime
+		}
+		g.cur.timed = own > 0 && own <= 10_000_000
+	}
 	g.send(line)
 	if r.IntN(10) == 0 {
 		// the next command is already in the pipe when the go line is read
@@ -470,7 +482,7 @@ func (g *uciGen) during(w *uciWorld) {
 		}
 	}
 	if c.stopSent {
-		if !c.drained && g.cfg.SweepStop == 0 && g.turns+1 < g.cfg.MaxTurns && r.IntN(5) == 0 {
+		if !c.drained && !c.waiting && g.cfg.SweepStop == 0 && g.turns+1 < g.cfg.MaxTurns && r.IntN(5) == 0 {
 			// a GUI that does not wait for the bestmove: the next position and go
 			// follow the stop at once and are queued behind the unwinding search
 			if r.IntN(3) == 0 {
@@ -499,7 +511,13 @@ func (g *uciGen) during(w *uciWorld) {
 		return
 	}
 	if c.steps > c.limit {
-		g.send("stop")
+		if g.cfg.Stub && c.timed && (!c.ponder || c.hitSent) && r.IntN(2) == 0 {
+			// a GUI playing a timed game never sends stop: the engine has to end
+			// the search by its own deadline (the blocking stub never does)
+			c.waiting = true
+		} else {
+			g.send("stop")
+		}
 		c.stopSent = true
 		return
 	}
